@@ -7,13 +7,18 @@ Import ListNotations.
 Local Open Scope nat_scope.
 
 (* ---------------- which archive ---------------- *)
-Inductive akind := AHof (k : nat) | APareto (s : simkind) (cap : nat).
+Inductive akind := AHof (k : nat) | APareto (s : simkind) (cap : nat)
+  | AHofSim (s : simkind) (k : nat).       (* HallOfFame(maxsize = k, similar = ...) *)
 
 Definition arch_update (kd : akind) (a : hof) (pop : list indiv) : hof :=
-  match kd with AHof k => hof_upd k a pop | APareto s cap => pf_upd s cap a pop end.
+  match kd with
+  | AHof k => hof_upd k a pop
+  | APareto s cap => pf_upd s cap a pop
+  | AHofSim s k => hof_update fitness f_worse f_better (sim_of s) k a pop
+  end.
 
 Definition arch_raises (kd : akind) (a : hof) (pop : list indiv) : bool :=
-  match kd with AHof k => hof_raises k a pop | APareto _ _ => false end.
+  match kd with AHof k | AHofSim _ k => hof_raises k a pop | APareto _ _ => false end.
 
 (* GenerationKeeper.__init__: ParetoFront(maxsize = keep_n_best * 5, similar = _individuals_same)
    for a multi-objective Objective, else HallOfFame(maxsize = keep_n_best) *)
@@ -97,7 +102,9 @@ Definition trailing_false (l : list bool) : nat :=
 Inductive target :=
 | THof (k : nat)                         (* HallOfFame(maxsize = k) driven directly *)
 | TPareto (s : simkind) (cap : nat)      (* ParetoFront(maxsize = cap, similar = ...) driven directly *)
-| TKeeper (multi : bool) (k nq nc : nat) (* GenerationKeeper(Objective(nq quality, nc complexity metrics, multi), keep_n_best = k) *).
+| TKeeper (multi : bool) (k nq nc : nat) (* GenerationKeeper(Objective(nq quality, nc complexity metrics, multi), keep_n_best = k) *)
+| THofSim (s : simkind) (k : nat)        (* HallOfFame(maxsize = k, similar = a user function) *)
+| TKeeperSim (s : simkind) (k nq nc : nat) (* multi-objective GenerationKeeper(..., similarity_criteria = a user function) *).
 
 (* observed after one update: did the call raise; uids of archive.items in order; values of
    archive.keys in order; keeper counters and flags (0 / false for the direct targets) *)
@@ -109,12 +116,15 @@ Definition target_kind (t : target) : akind :=
   | THof k => AHof k
   | TPareto s cap => APareto s cap
   | TKeeper multi k _ _ => keeper_kind multi k
+  | THofSim s k => AHofSim s k
+  | TKeeperSim s k _ _ => APareto s (k * 5)
   end.
 
 Definition target_metrics (t : target) : nat :=
-  match t with TKeeper _ _ nq nc => nq + nc | _ => 0 end.
+  match t with TKeeper _ _ nq nc | TKeeperSim _ _ nq nc => nq + nc | _ => 0 end.
 
-Definition is_keeper (t : target) : bool := match t with TKeeper _ _ _ _ => true | _ => false end.
+Definition is_keeper (t : target) : bool :=
+  match t with TKeeper _ _ _ _ | TKeeperSim _ _ _ _ => true | _ => false end.
 
 (* the value vector of a fitness object as the harness prints it: none for an invalid fitness *)
 Definition rowf (f : fit) : list Q := if valid f then vals f else [].
@@ -126,7 +136,7 @@ Definition snapshot (t : target) (raised : bool) (st : keeper) : ostep :=
      o_gen := if is_keeper t then k_gen st else 0;
      o_stag := if is_keeper t then k_stag st else 0;
      o_any := is_keeper t && any_improved st;
-     o_qual := match t with TKeeper _ _ nq _ => quality_improved nq st | _ => false end |}.
+     o_qual := match t with TKeeper _ _ nq _ | TKeeperSim _ _ nq _ => quality_improved nq st | _ => false end |}.
 
 (* model prediction of the observations; an update that raises leaves the state untouched
    (the harness stops a sequence at the first exception) *)
@@ -228,7 +238,7 @@ Definition subset_rows (a b : list (list Q)) : bool := forallb (fun v => existsb
 Definition nondominated (vs : list (list Q)) : list (list Q) :=
   filter (fun v => negb (existsb (fun w => pareto_b w v) vs)) vs.
 
-Definition pareto_clauses (cap : nat) (seen : list indiv) (o : ostep) : bool :=
+Definition pareto_clauses (refl : bool) (cap : nat) (seen : list indiv) (o : ostep) : bool :=
   match member_vals seen (o_uids o) with
   | None => false
   | Some mv =>
@@ -237,7 +247,7 @@ Definition pareto_clauses (cap : nat) (seen : list indiv) (o : ostep) : bool :=
       implb (0 <? cap) (length mv <=? cap) &&
       (* below capacity: no eviction can have happened when no more distinct individuals than
          the capacity were shown *)
-      implb ((cap =? 0) || (length (distinct_by_uid seen []) <=? cap))
+      implb ((cap =? 0) || (length (if refl then distinct_by_uid seen [] else seen) <=? cap))
             (let nd := nondominated (map (fun x => vals (fitness x)) seen) in
              subset_rows mv nd && subset_rows nd mv)
   end.
@@ -258,10 +268,20 @@ Definition any_metric_improved_b (n : nat) (prev cur : list (list Q)) : bool :=
   existsb (fun j => metric_improved_b j prev cur) (seq 0 n).
 
 Definition pareto_kind (t : target) : bool :=
-  match t with TPareto _ _ => true | TKeeper m _ _ _ => m | THof _ => false end.
+  match t with TPareto _ _ | TKeeperSim _ _ _ _ => true | TKeeper m _ _ _ => m | THof _ | THofSim _ _ => false end.
 
 Definition capacity (t : target) : nat :=
-  match t with THof k => k | TPareto _ c => c | TKeeper m k _ _ => if m then k * 5 else k end.
+  match t with
+  | THof k | THofSim _ k => k
+  | TPareto _ c => c
+  | TKeeper m k _ _ => if m then k * 5 else k
+  | TKeeperSim _ k _ _ => k * 5
+  end.
+
+(* the similarity function of a front; a reflexive one keeps one member per uid *)
+Definition target_sim (t : target) : simkind :=
+  match t with TPareto s _ | TKeeperSim s _ _ _ | THofSim s _ => s | TKeeper _ _ _ _ => SimSame | THof _ => SimUid end.
+Definition reflexive_sim (s : simkind) : bool := match s with SimNever => false | _ => true end.
 
 (* clause groups, for diagnosis: which = 0 checks everything, 1 only the archive contents,
    2 only "best never worse", 3 only the keeper's counters and flags *)
@@ -278,13 +298,14 @@ Fixpoint clauses_from (which : nat) (t : target) (seen : list indiv) (prev : lis
       let cur := rev (o_keys o) in                       (* best first, like items *)
       let stag' := if o_any o then 0 else S stag in
       sel which 1 (negb (o_raised o) &&
-        (if pareto_kind t then pareto_clauses (capacity t) seen' o else hof_clauses (capacity t) seen' o)) &&
+        (if pareto_kind t then pareto_clauses (reflexive_sim (target_sim t)) (capacity t) seen' o
+         else hof_clauses (capacity t) seen' o)) &&
       sel which 2 (head_not_worse prev cur) &&
       sel which 3 (if is_keeper t then
          (o_gen o =? S n) && (o_stag o =? stag') &&
          Bool.eqb (o_any o) (any_metric_improved_b (target_metrics t) prev cur) &&
          match t with
-         | TKeeper _ _ nq _ => Bool.eqb (o_qual o) (any_metric_improved_b nq prev cur)
+         | TKeeper _ _ nq _ | TKeeperSim _ _ nq _ => Bool.eqb (o_qual o) (any_metric_improved_b nq prev cur)
          | _ => true
          end
        else true) &&
@@ -299,7 +320,10 @@ Definition multi_fit (f : fit) : bool := match f with Multi _ _ => true | Single
    metrics; a hall of fame driven directly may also be shown individuals with an invalid fitness *)
 Definition in_scope (t : target) (pops : list (list indiv)) : bool :=
   let seen := concat pops in
-  (1 <=? match t with THof k => k | TKeeper _ k _ _ => k | TPareto _ _ => 1 end) &&
+  (1 <=? match t with THof k | THofSim _ k | TKeeper _ k _ _ | TKeeperSim _ k _ _ => k | TPareto _ _ => 1 end) &&
+  (* a hall of fame with a user similarity keeps the first seen of each similarity class: the
+     "k best distinct individuals" clause is only stated for the default (uid) similarity *)
+  match t with THofSim SimUid _ => true | THofSim _ _ => false | _ => true end &&
   scope_b (match t with THof _ => true | _ => false end) seen &&
   (if pareto_kind t then forallb (fun x => multi_fit (fitness x)) seen else true) &&
   (if is_keeper t then forallb (fun x => length (vals (fitness x)) =? target_metrics t) seen else true).
